@@ -949,9 +949,10 @@ structure G where
   any other address — in flight or not — leaves them intact (the reply in flight is simply ignored);
   no-panic, termination and the process-image clauses hold regardless. -/
   tainted : Bool := false
-  /-- sticky: `reset_address()` hit a peripheral whose event was still waiting in `last_events` (the
-  stale event is handed out by the next `take_last_events`).  Only the life-cycle clause of C14 is
-  stated for histories without that. -/
+  /-- the peripheral event waiting in `last_events` belongs to an incarnation of the peripheral that has
+  since been reset by `reset_address()`: the next `take_last_events` hands it out, but it says nothing
+  about the fresh peripheral — the life-cycle bookkeeping (`sgTake`) skips it.  Cleared whenever
+  `last_events` is written afresh (every `transmit_telegram`, every delivered reply) or taken. -/
   staleEv : Bool := false
 
 inductive Res3 (α : Type)
@@ -1049,12 +1050,13 @@ def gstep (fp : FdlParams) (g : G) : Op → Res3 G
     | .hang => .hang
     | .none m' =>
       let g1 : G := { g with m := m', out := none, o := .idle, now := some now,
-                             collected := g.collected && !g.dirty, dirty := true }
+                             collected := g.collected && !g.dirty, dirty := true, staleEv := false }
       match m'.lastEvents.peripheral with
       | some he => .ok { g1 with sg := g.upd he.index sgOffline, produced := g.produced ++ [he] }
       | none => .ok g1
     | .send m' h pdu =>
-      let g1 : G := { g with m := m', now := some now, collected := g.collected && !g.dirty, dirty := true }
+      let g1 : G := { g with m := m', now := some now, collected := g.collected && !g.dirty, dirty := true,
+                             staleEv := false }
       if h.dsap = SAP_SLAVE_GLOBAL_CONTROL then .ok { g1 with out := none, o := .gc h pdu }
       else
         match m'.cur with
@@ -1065,7 +1067,8 @@ def gstep (fp : FdlParams) (g : G) : Op → Res3 G
     match Master.receiveReply g.m a t with
     | .panic => .panic
     | .ok m' =>
-      let g1 : G := { g with m := m', out := none, collected := g.collected && !g.dirty, dirty := true }
+      let g1 : G := { g with m := m', out := none, collected := g.collected && !g.dirty, dirty := true,
+                             staleEv := false }
       match g.m.cur with
       | some (i, p) =>
         if p.address ≠ a then .ok { g with out := none, o := .ignored } else
@@ -1080,9 +1083,10 @@ def gstep (fp : FdlParams) (g : G) : Op → Res3 G
   | .take =>
     let (m', e) := g.m.takeLastEvents
     let sg' := match e.peripheral with
-      | some he => g.upd he.index (sgTake he.ev)
+      | some he => if g.staleEv then g.sg else g.upd he.index (sgTake he.ev)
       | none => g.sg
-    .ok { g with m := m', o := .taken e, dirty := false, sg := sg', taken := g.taken ++ e.peripheral.toList }
+    .ok { g with m := m', o := .taken e, dirty := false, sg := sg', taken := g.taken ++ e.peripheral.toList,
+                 staleEv := false }
   | .writeQ slot bs =>
     match g.m.writePiQ slot bs with
     | some m' => .ok { g with m := m', o := .user }
@@ -1306,7 +1310,7 @@ theorem final_cases {fp : FdlParams} (hfp : FpOk fp) {m1 : Master} (hM1 : MInv f
 
 /-- The ghost-free part of a `tx` step that all cases share. -/
 def G.polled (g : G) (now : Int) (m' : Master) : G :=
-  { g with m := m', now := some now, collected := g.collected && !g.dirty, dirty := true }
+  { g with m := m', now := some now, collected := g.collected && !g.dirty, dirty := true, staleEv := false }
 
 theorem timeOk_bound {g : G} {now : Int} (h : timeOk g now = true) : timeB now := by
   unfold timeOk at h
@@ -1426,7 +1430,7 @@ theorem reply_elim {fp : FdlParams} {g g' : G} (hI : Inv fp g) {a : UInt8} {t : 
     (hrep : ∀ index i p p' ev, g.out = some a → g.m.cycle = .dx index → curSlot g.m.slots index = some (i, p) →
       p.address = a → replyAllowed fp.address a t = true → RxSpec p t p' ev →
       P { g with m := afterReply g.m index i p p' ev, out := none,
-                 collected := g.collected && !g.dirty, dirty := true,
+                 collected := g.collected && !g.dirty, dirty := true, staleEv := false,
                  o := .replied i ev, sg := g.upd i (sgReply t p p'),
                  produced := g.produced ++ (ev.map fun e => ({ index := i, address := p.address, ev := e } : HEvent)).toList })
     -- stale reply: the peripheral at the cycle index has another address by now (`reset_address()`)
@@ -1908,7 +1912,7 @@ def Delivered (fp : FdlParams) (g : G) (a : UInt8) (t : Telegram) (g' : G) : Pro
   ∃ index i p p' ev, g.out = some a ∧ g.m.cycle = .dx index ∧ curSlot g.m.slots index = some (i, p) ∧
     p.address = a ∧ replyAllowed fp.address a t = true ∧ RxSpec p t p' ev ∧
     g' = { g with m := afterReply g.m index i p p' ev, out := none,
-                  collected := g.collected && !g.dirty, dirty := true,
+                  collected := g.collected && !g.dirty, dirty := true, staleEv := false,
                   o := .replied i ev, sg := g.upd i (sgReply t p p'),
                   produced := g.produced ++ (ev.map fun e => ({ index := i, address := p.address, ev := e } : HEvent)).toList }
 
@@ -1935,60 +1939,6 @@ theorem tainted_mono {fp : FdlParams} {g g' : G} (op : Op) (h : gstep fp g op = 
   | true =>
     exfalso
     have : g'.tainted = true := by
-      cases op with
-      | tx now hp =>
-        simp only [gstep] at h
-        split at h
-        · cases h
-        · split at h
-          · cases h
-          · cases h
-          · split at h <;> (simp only [Res3.ok.injEq] at h; subst h; exact hg)
-          · split at h
-            · simp only [Res3.ok.injEq] at h; subst h; exact hg
-            · split at h <;> (simp only [Res3.ok.injEq] at h; subst h; exact hg)
-      | reply a t =>
-        simp only [gstep] at h
-        split at h
-        · cases h
-        · split at h
-          · cases h
-          · split at h
-            · split at h <;> (simp only [Res3.ok.injEq] at h; subst h; exact hg)
-            · simp only [Res3.ok.injEq] at h; subst h; exact hg
-      | timeout a =>
-        simp only [gstep] at h
-        split at h
-        · cases h
-        · simp only [Res3.ok.injEq] at h; subst h; exact hg
-      | take => simp only [gstep, Master.takeLastEvents, Res3.ok.injEq] at h; subst h; exact hg
-      | writeQ slot bs =>
-        simp only [gstep] at h
-        split at h
-        · simp only [Res3.ok.injEq] at h; subst h; exact hg
-        · cases h
-      | diagReq slot =>
-        simp only [gstep] at h
-        split at h
-        · simp only [Res3.ok.injEq] at h; subst h; exact hg
-        · cases h
-      | resetAddr slot a =>
-        simp only [gstep] at h
-        split at h
-        · cases h
-        · split at h
-          · simp only [Res3.ok.injEq] at h; subst h; simp [hg]
-          · cases h
-    rw [hu] at this; cases this
-
-/-- `staleEv` is sticky. -/
-theorem staleEv_mono {fp : FdlParams} {g g' : G} (op : Op) (h : gstep fp g op = .ok g')
-    (hu : g'.staleEv = false) : g.staleEv = false := by
-  cases hg : g.staleEv with
-  | false => rfl
-  | true =>
-    exfalso
-    have : g'.staleEv = true := by
       cases op with
       | tx now hp =>
         simp only [gstep] at h
